@@ -478,8 +478,8 @@ func (e *Engine) doCall(st *State, call *ssa.CallCommon, fnv Val, args []Val, de
 						}
 					}
 				}
-				for i := range fullArgs {
-					env.vars[fmt.Sprintf("arg%d", i)] = fullArgs[i]
+				for i := range args {
+					env.vars[fmt.Sprintf("arg%d", i)] = args[i]
 				}
 				e.oblige(st, "atcall("+name+")", instr.Pos(), tagOr(ac.C), e.evalBool(env, ac.C))
 			}
@@ -542,8 +542,8 @@ func (e *Engine) doCall(st *State, call *ssa.CallCommon, fnv Val, args []Val, de
 					for i, p := range params {
 						env.vars["arg_"+p] = fullArgs[i]
 					}
-					for i := range fullArgs {
-						env.vars[fmt.Sprintf("arg%d", i)] = fullArgs[i]
+					for i := range args {
+						env.vars[fmt.Sprintf("arg%d", i)] = args[i]
 					}
 					e.bindResults(env, result)
 					env.clause = &ac.C
@@ -632,9 +632,17 @@ func (e *Engine) applyContract(st *State, fc *FuncContract, callee *ssa.Function
 	pre := st.snapshot()
 	mkEnv := func(old *Snapshot) *Env {
 		env := &Env{e: e, st: st, old: old, vars: map[string]Val{}, pkg: pkg}
+		shift := 0
+		if len(params) > 0 && params[0] == "recv" {
+			shift = 1 // positional names arg0, arg1, ... number the declared parameters, not the interface receiver
+		}
+		for i := range params {
+			if i >= shift {
+				env.vars[fmt.Sprintf("arg%d", i-shift)] = args[i]
+			}
+		}
 		for i, p := range params {
 			env.vars[p] = args[i]
-			env.vars[fmt.Sprintf("arg%d", i)] = args[i]
 		}
 		e.bindLets(env, fc)
 		return env
